@@ -16,6 +16,11 @@ From the source text of /repo/mako/lexer.py and /repo/mako/parsetree.py (Python 
                       `exceptions.SyntaxException`: whatever CPython's parser raises for the Python inside a
                       directive (SyntaxError, ValueError, UnicodeEncodeError, MemoryError, RecursionError ...)
                       leaves the lexer as a Mako exception;
+  * `visitorsGuarded` - every identifier visitor constructed in mako/ast.py (`pyparser.FindIdentifiers`, `FindTuple`,
+                      `ParseFunc` - three entry points) is run through `pyparser.visit(...)`, never by a direct
+                      `.visit(` call, and `pyparser.visit` turns `RecursionError` (or a wider class) into
+                      `exceptions.SyntaxException`: Python that parses but is nested too deeply for the recursive
+                      visitors leaves the lexer as a Mako exception;
   * `primaryKeywords` / `ternaryTable` - `ControlLine.is_primary`'s list and `ControlLine.is_ternary`'s dict;
   * `regexFingerprint` - sha1 over all string literals passed to `self.match(...)`/`re.match`/`re.findall`/
                       `re.compile` in lexer.py (never changes a verdict; the harness only uses it to decide how
@@ -105,6 +110,43 @@ def pyparser_wraps_everything(repo):
     raise RegenError("mako/pyparser.py: parse() has no try statement around the parser call")
 
 
+def visitors_guarded(repo):
+    atree = parse(repo, "mako/ast.py")
+    built = guarded = direct = 0
+    for n in ast.walk(atree):
+        if isinstance(n, ast.Call) and isinstance(n.func, ast.Attribute) and isinstance(n.func.value, ast.Name):
+            owner, attr = n.func.value.id, n.func.attr
+            if owner == "pyparser" and attr in ("FindIdentifiers", "FindTuple", "ParseFunc"):
+                built += 1
+            elif owner == "pyparser" and attr == "visit":
+                guarded += 1
+            elif attr == "visit":
+                direct += 1
+    if built == 0:
+        raise RegenError("mako/ast.py: no identifier visitor is constructed")
+    ptree = parse(repo, "mako/pyparser.py")
+    try:
+        fn = find_func(ptree.body, "visit", "mako/pyparser.py")
+    except RegenError:
+        return False
+    wraps = False
+    for n in ast.walk(fn):
+        if isinstance(n, ast.Try):
+            for h in n.handlers:
+                names = []
+                if h.type is None:
+                    names = ["BaseException"]
+                elif isinstance(h.type, ast.Name):
+                    names = [h.type.id]
+                elif isinstance(h.type, ast.Tuple):
+                    names = [e.id for e in h.type.elts if isinstance(e, ast.Name)]
+                wide = any(x in ("RecursionError", "RuntimeError", "Exception", "BaseException") for x in names)
+                raises = any(isinstance(r, ast.Raise) and r.exc is not None and "SyntaxException" in ast.dump(r.exc)
+                             for st in h.body for r in ast.walk(st))
+                wraps = wraps or (wide and raises)
+    return wraps and direct == 0 and guarded >= built and built >= 3
+
+
 def string_consts(node):
     """literal string value of an expression made of constants, implicit concatenation and `%`-formatting"""
     out = []
@@ -136,6 +178,7 @@ def gen(repo):
     order = matcher_order(find_func(cls.body, "parse", LEX))
     tl_ok = textlength_order(find_func(cls.body, "parse", LEX))
     wraps = pyparser_wraps_everything(repo)
+    guarded = visitors_guarded(repo)
     mt = find_func(cls.body, "match_text", LEX)
     n_append = sum(1 for n in ast.walk(mt) if _is_self_call(n, "append_node"))
     if n_append == 0:
@@ -191,7 +234,7 @@ def gen(repo):
         seen[k] = v
     table = sorted(seen.items())
 
-    out = [HEADER % ("%s, %s, mako/pyparser.py" % (LEX, PT)), "namespace MakoModel.Generated.LexerCfg", "",
+    out = [HEADER % ("%s, %s, mako/pyparser.py, mako/ast.py" % (LEX, PT)), "namespace MakoModel.Generated.LexerCfg", "",
            "/-- the `if self.match_*():` cascade of `Lexer.parse`, in source order -/",
            "def matcherOrder : List String := [%s]" % ", ".join(lean_string(m) for m in order), "",
            "/-- `match_text` emits the character stepped over by the empty-match `+1` rule (fix for F1 present) -/",
@@ -202,6 +245,8 @@ def gen(repo):
            "def textlengthIsLexedLength : Bool := %s" % ("true" if tl_ok else "false"), "",
            "/-- `pyparser.parse` turns every exception of CPython's parser into a Mako `SyntaxException` -/",
            "def pyparserWrapsEveryException : Bool := %s" % ("true" if wraps else "false"), "",
+           "/-- the identifier visitors of mako/ast.py run through `pyparser.visit`, which wraps `RecursionError` -/",
+           "def visitorsGuarded : Bool := %s" % ("true" if guarded else "false"), "",
            "/-- `ControlLine.is_primary` -/",
            "def primaryKeywords : List (List Char) := [%s]" % ", ".join(lean_str(k) for k in primary), "",
            "/-- `ControlLine.is_ternary`: primary keyword ↦ its legal ternary keywords -/",
